@@ -1,10 +1,10 @@
 /-
   C06 — a failure is persisted and automatically replayed first on the next run.
-  (initial set; the byte-level save/load round trip is in RapidProofs/RoundTrip.lean)
 -/
 import RapidModel.Generated.Consts
 import RapidProofs.Shrink
 import RapidModel.Persist
+import RapidProofs.RoundTrip
 
 namespace Rapid.C06
 
@@ -55,6 +55,22 @@ theorem persisted_case_replays (p : Prog) (src : Src) (h : (checkOnce p src TS.f
     checkOnce p (.buf (checkOnce p src TS.fresh).used) TS.fresh = { checkOnce p src TS.fresh with src := .buf [] } := by
   have := checkOnce_replay p src TS.fresh [] h
   simpa using this
+
+/-- **the fail-file format round-trips**: whatever the test logged — any bytes, nothing, lines of
+    any length, '#', '\r', no final newline — `loadFailFile` reads back exactly the version, the
+    seed and every word that `saveFailFile` wrote -/
+theorem save_load_round_trip (v : Bytes) (hv : VersionOK v) (output : Bytes) (seed : UInt64) (buf : List UInt64) :
+    loadBytes (saveBytes v output seed buf) = .ok (v, seed, buf) := load_save v hv output seed buf
+
+/-- the current version string is one the format can carry; its bytes are the ASCII codes of
+    `rapidVersion` (which `version_source` ties to the source) -/
+theorem current_version_ok : VersionOK versionBytes ∧
+    rapidVersion.toList.map (fun c => c.toNat) = versionBytes.map (fun b => b.toNat) :=
+  ⟨versionOK_current, by decide⟩
+
+/-- in particular the empty test case and the empty output -/
+example : loadBytes (saveBytes versionBytes [] 0 []) = .ok (versionBytes, 0, []) :=
+  load_save _ versionOK_current _ _ _
 
 /-! ### facts re-read from /repo's source on every run -/
 
